@@ -2239,3 +2239,165 @@ Proof.
   - destruct (hvals _ _); [reflexivity|discriminate].
   - intros v Hv. rewrite Hv in H3. discriminate.
 Qed.
+
+(* ================================================================== Part 8: a concrete history (non-vacuity) and the legacy witness *)
+Definition sip (lines : list string) : bytes := flat_map (fun l => s2b l ++ crlf) lines ++ crlf.
+Definition ex_lc : listen_cfg :=
+  {| lc_addr := s2b "10.0.0.1"; lc_udp := 5060; lc_tcp := 5060;
+     lc_backends := [s2b "10.0.0.11:5070"; s2b "10.0.0.12:5070"; s2b "10.0.0.13:5070"];
+     lc_dynamic := false; lc_no_received := false; lc_def_route := false; lc_must_rr := false |}.
+Definition ex_cfg : cfg :=
+  {| c_name := s2b "sip.example.com"; c_keep_next_hop := false; c_dialog_timeout := 1800;
+     c_routes := []; c_hosts := []; c_listens := [ex_lc] |}.
+Definition ex_invite : bytes := sip [
+  "INVITE sip:bob@sip.example.com SIP/2.0";
+  "Via: SIP/2.0/UDP 10.0.0.99:5060;branch=z9hG4bKua1";
+  "From: <sip:alice@ua.example.org>;tag=a-1";
+  "To: <sip:bob@sip.example.com>";
+  "Call-ID: c-1@ua";
+  "CSeq: 1 INVITE";
+  "Content-Length: 0"]%string.
+Definition ex_200 : bytes := sip [
+  "SIP/2.0 200 OK";
+  "Via: SIP/2.0/UDP 10.0.0.1:5060;branch=z9hG4bKpx0";
+  "Via: SIP/2.0/UDP 10.0.0.99:5060;branch=z9hG4bKua1;received=10.0.0.99";
+  "From: <sip:alice@ua.example.org>;tag=a-1";
+  "To: <sip:bob@sip.example.com>;tag=b-2";
+  "Call-ID: c-1@ua";
+  "CSeq: 1 INVITE";
+  "Content-Length: 0"]%string.
+Definition ex_options (n : string) : bytes := sip [
+  "OPTIONS sip:svc@sip.example.com SIP/2.0";
+  ("Via: SIP/2.0/UDP 10.0.0.98:5060;branch=z9hG4bKo" ++ n)%string;
+  "From: <sip:carol@ua.example.org>;tag=c-3";
+  "To: <sip:svc@sip.example.com>";
+  ("Call-ID: o-" ++ n)%string;
+  "CSeq: 7 OPTIONS";
+  "Content-Length: 0"]%string.
+(* the callee side re-INVITEs: From/To exchanged *)
+Definition ex_reinvite : bytes := sip [
+  "INVITE sip:alice@sip.example.com SIP/2.0";
+  "Via: SIP/2.0/UDP 10.0.0.77:5060;branch=z9hG4bKb1";
+  "From: <sip:bob@sip.example.com>;tag=b-2";
+  "To: <sip:alice@ua.example.org>;tag=a-1";
+  "Call-ID: c-1@ua";
+  "CSeq: 1 INVITE";
+  "Content-Length: 0"]%string.
+Definition ex_bye : bytes := sip [
+  "BYE sip:bob@sip.example.com SIP/2.0";
+  "Via: SIP/2.0/UDP 10.0.0.99:5060;branch=z9hG4bKua2";
+  "From: <sip:alice@ua.example.org>;tag=a-1";
+  "To: <sip:bob@sip.example.com>;tag=b-2";
+  "Call-ID: c-1@ua";
+  "CSeq: 2 BYE";
+  "Content-Length: 0"]%string.
+Definition sec (n : Z) : Z := n * second.
+Definition ex_hist : hist :=
+  [ (sec 1, s2b "z9hG4bKpx0", EvUdp 0 (s2b "10.0.0.99") 5060 ex_invite);
+    (sec 2, s2b "z9hG4bKpx1", EvUdp 0 (s2b "10.0.0.12") 5070 ex_200);
+    (sec 3, s2b "z9hG4bKpx2", EvUdp 0 (s2b "10.0.0.98") 5060 (ex_options "1"));
+    (sec 4, s2b "z9hG4bKpx3", EvUdp 0 (s2b "10.0.0.77") 5060 ex_reinvite);
+    (sec 5, s2b "z9hG4bKpx4", EvUdp 0 (s2b "10.0.0.98") 5060 (ex_options "2"));
+    (sec 6, s2b "z9hG4bKpx5", EvUdp 0 (s2b "10.0.0.99") 5060 ex_bye) ].
+
+
+Definition ex_st0 : state := init_state ex_cfg 0 [].
+Definition ex_outs : list (list output) := match run all_fixed ex_cfg ex_st0 ex_hist with Ok (_, o) => o | _ => [] end.
+Definition ex_h1 : hist := [(sec 1, s2b "z9hG4bKpx0", EvUdp 0 (s2b "10.0.0.99") 5060 ex_invite)].
+Definition ex_h2 : hist :=
+  [(sec 3, s2b "z9hG4bKpx2", EvUdp 0 (s2b "10.0.0.98") 5060 (ex_options "1"));
+   (sec 4, s2b "z9hG4bKpx3", EvUdp 0 (s2b "10.0.0.77") 5060 ex_reinvite);
+   (sec 5, s2b "z9hG4bKpx4", EvUdp 0 (s2b "10.0.0.98") 5060 (ex_options "2"))].
+Definition ex_r1 := run all_fixed ex_cfg ex_st0 ex_h1.
+Definition ex_st1 : state := match ex_r1 with Ok (s, _) => s | _ => ex_st0 end.
+Definition ex_o1 : list (list output) := match ex_r1 with Ok (_, o) => o | _ => [] end.
+Definition ex_p1 : pstate := match nth_p (st_proxies ex_st1) 0 with Some p => p | None => init_pstate ex_cfg 0 ex_lc end.
+Definition msg_of (b : bytes) : message :=
+  match parse_message b with Ok (m, _) => m | _ => {| m_start := SResp [] 0 []; m_headers := []; m_body := [] |} end.
+Definition rest_of (b : bytes) : bytes := match parse_message b with Ok (_, r) => r | _ => [] end.
+Definition ex_d : bytes := s2b "c-1@ua-a-1-sip:alice@ua.example.org-b-2-sip:bob@sip.example.com".
+Example C04_sticky_ex :
+  exists b, last ex_outs [] = if fits_datagram b then [(DUdp (s2b "10.0.0.12") 5070, b)] else [].
+Proof.
+  unfold ex_outs.
+  destruct (run all_fixed ex_cfg ex_st0 ex_hist) as [[stf outss]| |] eqn:E; try (vm_compute in E; discriminate E).
+  eapply (C04_sticky ex_cfg 0%nat ex_lc (udp_from ex_lc) ex_h1
+            (sec 2) (s2b "z9hG4bKpx1") (s2b "10.0.0.12") 5070 ex_200 ex_h2
+            (sec 6) (s2b "z9hG4bKpx5") (s2b "10.0.0.99") 5060 ex_bye ex_st0 stf outss
+            ex_st1 ex_o1 ex_p1 (msg_of ex_200) (rest_of ex_200) (msg_of ex_bye) (rest_of ex_bye) 1%nat ex_d
+            (DUdp (s2b "10.0.0.12") 5070)).
+  - reflexivity.
+  - reflexivity.
+  - (exact E).
+  - (vm_compute; reflexivity).
+  - (vm_compute; reflexivity).
+  - (vm_compute; reflexivity).
+  - unfold gen_ok. vm_compute. discriminate.
+  - (vm_compute; reflexivity).
+  - (vm_compute; reflexivity).
+  - (vm_compute; reflexivity).
+  - (vm_compute; reflexivity).
+  - (vm_compute; reflexivity).
+  - (vm_compute; reflexivity).
+  - vm_compute. discriminate.
+  - (repeat (apply Forall_cons; [split; [vm_compute; reflexivity|apply ev_ok_b_sound; vm_compute; reflexivity]|]); apply Forall_nil).
+  - (vm_compute; reflexivity).
+  - (vm_compute; reflexivity).
+  - (vm_compute; reflexivity).
+  - apply addressed_to_service_b_sound. (vm_compute; reflexivity).
+Qed.
+
+(* what the whole history does: INVITE -> .12 (rotation), 200 -> caller, OPTIONS -> .13, re-INVITE from the
+   callee side -> .12 (pinned; the rotation would have said .11), OPTIONS -> .11, BYE -> .12 *)
+Definition dests (r : res (state * list (list output))) : list (list dest) :=
+  match r with Ok (_, o) => map (map fst) o | _ => [] end.
+Example C04_history_ex :
+  dests (run all_fixed ex_cfg ex_st0 ex_hist) =
+  [ [DUdp (s2b "10.0.0.12") 5070]; [DUdp (s2b "10.0.0.99") 5060]; [DUdp (s2b "10.0.0.13") 5070];
+    [DUdp (s2b "10.0.0.12") 5070]; [DUdp (s2b "10.0.0.11") 5070]; [DUdp (s2b "10.0.0.12") 5070] ].
+Proof. vm_compute. reflexivity. Qed.
+(* the bind on that history, and the state it leaves: honoured before, not after the lifetime *)
+Example C04_bind_ex :
+  let st2 := match run all_fixed ex_cfg ex_st0 (firstn 2 ex_hist) with Ok (s, _) => s | _ => ex_st0 end in
+  match nth_p (st_proxies st2) 0 with
+  | Some p => snd (pins_get (sec 1000) ex_d (ps_pins p)) = Some (pin_val_backend (s2b "10.0.0.12:5070") 1) /\
+              snd (pins_get (sec 1802) ex_d (ps_pins p)) = None
+  | None => False
+  end.
+Proof. vm_compute. split; reflexivity. Qed.
+
+(* before the repair of findBackendByDialog (fx_indialog_invite = false): the re-INVITE inside the
+   pinned dialog goes to the rotation's next backend (.11) although the pin (.12) is live *)
+Definition legacy_fixes : fixes :=
+  {| fx_wiring := true; fx_udp_via_listener := true; fx_indialog_invite := false; fx_bracket_host := true |}.
+Theorem C04_legacy_refuted :
+  let h := firstn 4 ex_hist in
+  let st3 := match run legacy_fixes ex_cfg ex_st0 (firstn 3 ex_hist) with Ok (s, _) => s | _ => ex_st0 end in
+  (* the binding is there and live when the re-INVITE arrives (t = 4 s) *)
+  match nth_p (st_proxies st3) 0 with
+  | Some p => snd (pins_get (sec 4) ex_d (ps_pins p)) = Some (pin_val_backend (s2b "10.0.0.12:5070") 1)
+  | None => False
+  end /\
+  dialog_of (msg_of ex_reinvite) = Ok ex_d /\
+  last (dests (run legacy_fixes ex_cfg ex_st0 h)) [] = [DUdp (s2b "10.0.0.11") 5070] /\
+  last (dests (run all_fixed ex_cfg ex_st0 h)) [] = [DUdp (s2b "10.0.0.12") 5070].
+Proof. vm_compute. repeat split; reflexivity. Qed.
+
+(* ------------------------------------------------------------------ axiom audit *)
+Print Assumptions bref_of_val_backend.
+Print Assumptions bref_round_trip.
+Print Assumptions dialog_of_symmetric.
+Print Assumptions C04_bind.
+Print Assumptions C04_bind_subscribe.
+Print Assumptions C04_sticky_step.
+Print Assumptions C04_sticky_step_reverse.
+Print Assumptions C04_preserved_message.
+Print Assumptions C04_preserved.
+Print Assumptions C04_preserved_history.
+Print Assumptions C04_sticky.
+Print Assumptions C04_sticky_pinned.
+Print Assumptions C04_unpinned_step.
+Print Assumptions C04_unpinned_balanced.
+Print Assumptions key_neq_dialog.
+Print Assumptions C04_legacy_refuted.
+Print Assumptions C04_sticky_ex.
